@@ -434,8 +434,12 @@ func (t *fnTrans) resolveLoc(loc string, env *specEnv, pre *State) (l location, 
 					}
 				}
 				if len(l.heaps) == 0 {
+					hs := t.eng.heapSort[prefix]
+					if hs == "" && strings.HasPrefix(prefix, "GF.") {
+						hs = arrSort("Int")
+					}
 					l.heaps = append(l.heaps, prefix)
-					l.sorts = append(l.sorts, t.eng.heapSort[prefix])
+					l.sorts = append(l.sorts, hs)
 				}
 				return l, true
 			}
@@ -1024,7 +1028,7 @@ func (t *fnTrans) frameCheck(x *ssa.Return, env *specEnv) {
 	sortStrings(names)
 	for _, hn := range names {
 		cur := t.st.heaps[hn]
-		if hn == "$top" || hn == "$held" || strings.HasPrefix(hn, "CL.") || strings.HasPrefix(hn, "G.") || strings.HasPrefix(hn, "GF.") {
+		if hn == "$top" || hn == "$held" || strings.HasPrefix(hn, "CL.") || strings.HasPrefix(hn, "G.") {
 			continue
 		}
 		hs := t.eng.heapSort[hn]
